@@ -471,28 +471,62 @@ def gs_setup(ctx):
     return NS(self=me, start_probe=P, n=n, a0=a0, b0=b0)
 
 
+_NS_BOOKKEEPING = ("pre", "ctx", "interp", "k", "env", "loop_iterable", "loop_targets", "loop_carried")
+
+
+def _the_basis(s):
+    """Name-independent: THE list of images the function is building = the unique local bound to a list of abstract images
+    (a Python list literal before the first iteration, the symbolic list afterwards)."""
+    cands = {}
+    for n, v in s.__dict__.items():
+        if n in _NS_BOOKKEEPING:
+            continue
+        if isinstance(v, AList) or isinstance(v, list) and all(isinstance(e, AT) and e.lead == () for e in v):
+            cands[id(v)] = v
+    it = s.__dict__.get("loop_iterable")
+    if isinstance(it, AList):
+        cands[id(it)] = it
+    return cm.as_alist(next(iter(cands.values()))) if len(cands) == 1 else None
+
+
+def _the_residual(s):
+    """Name-independent: the running residual = the unique abstract image that the inner loop body reassigns and that was bound
+    before that loop."""
+    c = [v for v in s.loop_carried.values() if isinstance(v, AT) and v.lead == ()]
+    return c[0] if len(c) == 1 else None
+
+
 def gs_outer_inv(s):
-    L = cm.as_alist(s.orthogonal_probes)
+    L = _the_basis(s)
+    if L is None:
+        return [("exactly-one-list-of-modes-is-being-built", False)]
     k = lift(s.k)
     a, b = I("a!g"), I("b!g")
     r, i = ip(L.fn(a), L.fn(b))
     orth = forall([a, b], implies(AND(a >= 0, a < b, b < k), AND(r == 0, i == 0)))
-    return [("len(orthogonal_probes)=i", lift(L.n) == k),
+    return [("len(basis)=i", lift(L.n) == k),
             ("normalised-residuals-have-norm<=1", norms_le_1(L.fn, k)),
-            ("unit-norms=>orthogonal_probes[:i]-pairwise-orthogonal", implies(unit_norms(L.fn, k), orth))]
+            ("unit-norms=>basis[:i]-pairwise-orthogonal", implies(unit_norms(L.fn, k), orth))]
 
 
 def gs_inner_inv(s):
-    L = cm.as_alist(s.orthogonal_probes)
-    i, j = lift(s.i), lift(s.k)
+    L, res = _the_basis(s), _the_residual(s)
+    if L is None or res is None:
+        return [("the-inner-loop-carries-one-residual-image-and-reads-one-list-of-modes", False)]
+    n, j = lift(L.n), lift(s.k)      # len(basis) = outer index (outer invariant)
     a = I("a!g")
-    res = s.probe_i.fn()
-    r, im = ip(L.fn(a), res)
-    return [("unit-norms=><u_a,probe_i>=0-for-a<j", implies(unit_norms(L.fn, i), forall([a], implies(AND(a >= 0, a < j), AND(r == 0, im == 0)))))]
+    r, im = ip(L.fn(a), res.fn())
+    return [("unit-norms=><u_a,residual>=0-for-a<j", implies(unit_norms(L.fn, n), forall([a], implies(AND(a >= 0, a < j), AND(r == 0, im == 0)))))]
 
 
 def gs_havoc_list(s):
-    s.env.assign("orthogonal_probes", cm.fresh_alist(s.ctx, "U", s.ctx.fresh("len_U", "int")))
+    """the list is mutated through .append (not assigned): rebind every local that holds it to one arbitrary symbolic list"""
+    names = [n for n, v in s.__dict__.items() if n not in _NS_BOOKKEEPING and (isinstance(v, AList) or isinstance(v, list) and all(isinstance(e, AT) for e in v))]
+    if len({id(s.__dict__[n]) for n in names}) != 1:
+        raise V.OutOfSubset("Gram-Schmidt loop: expected exactly one list of images being built")
+    new = cm.fresh_alist(s.ctx, "U", s.ctx.fresh("len_U", "int"))
+    for n in names:
+        s.env.assign(n, new)
 
 
 def gs_ensures(s):
@@ -526,8 +560,8 @@ def gs_ensures(s):
 C_GS = Contract(
     f"{PM}:ProbeConstraints._probe_orthogonalization_constraint", setup=gs_setup, ensures=gs_ensures,
     snapshot=lambda s: s.start_probe.writes,
-    loops={0: LoopSpec(inv=gs_outer_inv, havoc={"orthogonal_probes": gs_havoc_list}),
-           1: LoopSpec(inv=gs_inner_inv, kinds={"probe_i": lambda ctx, old: cm.fresh_image(ctx, "probe_i")})},
+    loops={0: LoopSpec(inv=gs_outer_inv, havoc={"<the list being appended to>": gs_havoc_list}),
+           1: LoopSpec(inv=gs_inner_inv)},
 )
 
 
